@@ -283,7 +283,7 @@ func runC12(c *ev.ChildEnv, res *ev.Result) {
 	if c.Batch == 0 {
 		res.Count("message_types_with_specialised_codec", int64(len(types)))
 	}
-	per := tierN(c.Tier, 3000, 40000)
+	per := tierN(c.Tier, 3000, 150000)
 	g := &c12gen{rng: rand.New(rand.NewPCG(uint64(c.Seed), uint64(c.Batch)+1200))}
 	for ti, mt := range types {
 		if ti%c.Batches != c.Batch {
